@@ -55,7 +55,9 @@ SocketServer::SocketServer()
 SocketServer::~SocketServer()
 {
 	if(_thread) {
+		_requestStop = true;
 		_thread->kill();
+		_thread->join(); // the accept thread still uses its Thread object and this server until it has ended
 		delete _thread;
 	}
 	reapClients();
